@@ -98,6 +98,8 @@ func main() {
 			} else {
 				doBytes(c, b, "replay", true)
 			}
+		case "min":
+			runMin(c)
 		case "bigchunk", "bigad":
 			fmt.Println("the large values are rebuilt by a normal run; running it")
 			runValues(c)
@@ -120,4 +122,5 @@ func main() {
 	runJSONMalformed(c)
 	runDeep(c)
 	runEntryPoints(c)
+	runMin(c)
 }
